@@ -561,12 +561,15 @@ func guarded(f func() string) string {
 
 // roundTrip: marshal (may panic) then unmarshal from marshalled ++ rest (may panic).
 func roundTrip(c *hx.Ctx, kind string, params string, value string, rest []byte,
-	marshal func(buf []byte) int, unmarshal func(buf []byte) (int, string)) string {
+	marshal func(buf []byte) int, unmarshal func(buf []byte) (int, string), extra ...string) string {
 	op := kind
 	if params != "" {
 		op += " " + params
 	}
 	op += " | " + value + " | " + hx.Hex(rest)
+	for _, e := range extra { // e.g. the previous contents of the receiver
+		op += " | " + e
+	}
 	if aborted {
 		return ""
 	}
@@ -679,7 +682,7 @@ func noteRefs(c *hx.Ctx, kind string, rs compact.References, p TN) {
 }
 
 var kinds = []string{"ref", "refs", "ll", "lls", "mixed", "bits", "int", "tags", "members", "ints", "agr", "agl", "agm", "pll", "geom",
-	"area", "path", "cpoint", "fpoint", "prefs", "relation", "nss", "str", "nsi", "nsis", "plh", "tokenmap", "mtags"}
+	"area", "path", "cpoint", "fpoint", "prefs", "relation", "nss", "str", "nsi", "nsis", "plh", "tokenmap", "mtags", "trunc"}
 
 func runKind(c *hx.Ctx, kind string) {
 	r := c.Rand
@@ -763,6 +766,43 @@ func runKind(c *hx.Ctx, kind string) {
 		}
 		if len(v) >= 2 {
 			c.NonTrivial()
+		}
+		if !nonCanon && r.Chance(1, 3) {
+			// a receiver that already holds data: same reference / lat-lng pattern (reuse is invisible), another
+			// canonical value, or anything
+			var old compact.ReferencesAndLatLngs
+			switch r.Intn(3) {
+			case 0:
+				old = genMixed(r, p, false)
+				for j := range old {
+					if j < len(v) {
+						if v[j].Reference != compact.ReferenceInvald {
+							old[j] = compact.ReferenceAndLatLng{Reference: genRef(r, p, 5)}
+							if old[j].Reference == compact.ReferenceInvald {
+								old[j].Reference.Value = 1
+							}
+						} else {
+							old[j] = compact.ReferenceAndLatLng{Reference: compact.ReferenceInvald, LatLng: genLatLng(r, compact.LatLng{})}
+						}
+					}
+				}
+				c.Note("mixed!:old=same-shape")
+			case 1:
+				old = genMixed(r, p, false)
+				c.Note("mixed!:old=canonical")
+			default:
+				old = genMixed(r, p, true)
+				c.Note("mixed!:old=arbitrary")
+			}
+			oldS := rMixed(old)
+			roundTrip(c, "mixed!", tnStr(p), rMixed(v), rest,
+				func(b []byte) int { return v.Marshal(p, b) },
+				func(b []byte) (int, string) {
+					d := append(compact.ReferencesAndLatLngs(nil), old...)
+					n := d.Unmarshal(p, b)
+					return n, rMixed(d)
+				}, oldS)
+			break
 		}
 		roundTrip(c, "mixed", tnStr(p), rMixed(v), rest,
 			func(b []byte) int { return v.Marshal(p, b) },
@@ -848,7 +888,7 @@ func runKind(c *hx.Ctx, kind string) {
 		wide := r.Chance(1, 8)
 		v := genMembers(r, p, wide)
 		if wide {
-			c.Note("members:type>=4(finding)")
+			c.Note("members:type>=4(marshal-panics)")
 		}
 		if len(v) >= 2 {
 			c.NonTrivial()
@@ -905,6 +945,33 @@ func runKind(c *hx.Ctx, kind string) {
 		v := genAGM(r, p)
 		c.Note(fmt.Sprintf("agm:polygons=%s", bucket(len(v.Polygons))))
 		c.NonTrivial()
+		if r.Chance(1, 3) {
+			old := genAGM(r, p)
+			if r.Bool() { // same shape as v on the overlap
+				for j := range old.Polygons {
+					if j < len(v.Polygons) {
+						var q compact.PolygonGeometryMixed
+						if len(v.Polygons[j].References.Paths) > 0 {
+							q.References.Paths = compact.References{{TypeAndNamespace: p, Value: 9}}
+						} else {
+							q.LatLngs = genPLL(r)
+						}
+						old.Polygons[j] = q
+					}
+				}
+				c.Note("agm!:old=same-shape")
+			} else {
+				c.Note("agm!:old=canonical")
+			}
+			oldS := rAGM(old)
+			roundTrip(c, "agm!", tnStr(p), rAGM(v), rest,
+				func(b []byte) int { return v.Marshal(p, b) },
+				func(b []byte) (int, string) {
+					n := old.Unmarshal(p, b)
+					return n, rAGM(old)
+				}, oldS)
+			break
+		}
 		roundTrip(c, "agm", tnStr(p), rAGM(v), rest,
 			func(b []byte) int { return v.Marshal(p, b) },
 			func(b []byte) (int, string) {
@@ -1126,6 +1193,106 @@ func runKind(c *hx.Ctx, kind string) {
 			})
 	case "tokenmap":
 		runTokenMap(c, rest)
+	case "trunc":
+		runTrunc(c, p)
+	}
+}
+
+// truncated: marshal, then Unmarshal (fresh receiver) every proper prefix, each copied into a slice of exactly
+// that length (Go checks slice expressions against the capacity).
+//
+//	op     : trunc <kind> <params> | <value>
+//	answer : <hex> | r0 r1 … with rk = `panic` or `<returned>/<value>` for the prefix of length k;  `panic` if Marshal panics
+func truncated(c *hx.Ctx, kind, params, value string, marshal func(buf []byte) int, unmarshal func(buf []byte) (int, string)) {
+	if aborted {
+		return
+	}
+	ans := guarded(func() string {
+		buf := newBuf()
+		n := marshal(buf)
+		var rs []string
+		for k := 0; k < n; k++ {
+			pre := make([]byte, k)
+			copy(pre, buf[:k])
+			rs = append(rs, hx.Recover(func() string {
+				m, v := unmarshal(pre)
+				return fmt.Sprintf("%d/%s", m, v)
+			}))
+		}
+		for _, x := range rs {
+			if x == "panic" {
+				c.Note("trunc:" + kind + ":prefix-panics")
+			} else {
+				c.Note("trunc:" + kind + ":prefix-decodes")
+			}
+		}
+		return hx.Hex(buf[:n]) + " | " + strings.Join(rs, " ")
+	})
+	op := "trunc " + kind
+	if params != "" {
+		op += " " + params
+	}
+	c.Op(op+" | "+value, ans)
+}
+
+func runTrunc(c *hx.Ctx, p TN) {
+	r := c.Rand
+	switch r.Intn(7) {
+	case 0:
+		v := genRef(r, p, r.Uint64Edge())
+		truncated(c, "ref", tnStr(p), rRef(v), func(b []byte) int { return v.Marshal(p, b) },
+			func(b []byte) (int, string) {
+				var d compact.Reference
+				n := d.Unmarshal(p, b)
+				return n, rRef(d)
+			})
+	case 1:
+		v := compact.Int(genIntEdge(r))
+		truncated(c, "int", "", i(int(v)), func(b []byte) int { return v.Marshal(p, b) },
+			func(b []byte) (int, string) {
+				var d compact.Int
+				n := d.Unmarshal(p, b)
+				return n, i(int(d))
+			})
+	case 2:
+		v := genLatLng(r, compact.LatLng{})
+		truncated(c, "ll", "", rLL(v), func(b []byte) int { return v.Marshal(p, b) },
+			func(b []byte) (int, string) {
+				var d compact.LatLng
+				n := d.Unmarshal(p, b)
+				return n, rLL(d)
+			})
+	case 3:
+		v := genToken(r)
+		truncated(c, "str", "", hx.Hex([]byte(v)), func(b []byte) int { return compact.MarshalString(v, b) },
+			func(b []byte) (int, string) {
+				d, n := compact.UnmarshalString(b)
+				return n, hx.Hex([]byte(d))
+			})
+	case 4:
+		v := compact.NamespaceIndex{TypeAndNamespace: genTN(r), Index: int(r.Uint64Edge())}
+		truncated(c, "nsi", "", rNSI(v), func(b []byte) int { return v.Marshal(b) },
+			func(b []byte) (int, string) {
+				var d compact.NamespaceIndex
+				n := d.Unmarshal(b)
+				return n, rNSI(d)
+			})
+	case 5:
+		v := genNss(r)
+		truncated(c, "nss", "", rNss(v), func(b []byte) int { return v.Marshal(b) },
+			func(b []byte) (int, string) {
+				var d compact.Namespaces
+				n := d.Unmarshal(b)
+				return n, rNss(&d)
+			})
+	default:
+		v := genBits(r)
+		truncated(c, "bits", "", rBits(v), func(b []byte) int { return v.Marshal(b) },
+			func(b []byte) (int, string) {
+				var d compact.Bits
+				n := d.Unmarshal(b)
+				return n, rBits(d)
+			})
 	}
 }
 
@@ -1284,7 +1451,7 @@ func corpus(c *hx.Ctx) {
 			n := d.Unmarshal(pathTN, b)
 			return n, rRefs(d)
 		})
-	// finding member-type-wide: a member of type collection (5) comes back as type path (1) with role 5 instead of 4
+	// fixed (fixes/C11-member-type-guard.patch): a member of type collection (5) came back as type path (1) with role 5 instead of 4; now a Marshal panic
 	ms := compact.Members{{Type: b6.FeatureTypeCollection, Role: 4, ID: compact.Reference{}}}
 	roundTrip(c, "members", "0", rMembers(ms), nil,
 		func(b []byte) int { return ms.Marshal(0, b) },
@@ -1299,8 +1466,8 @@ func corpus(c *hx.Ctx) {
 func main() {
 	hx.Main(hx.Family{
 		Name: "c11",
-		Rule: "case n exercises record kind kinds[n mod " + i(len(kinds)) + "] (ref refs ll lls mixed bits int tags members ints agr agl agm pll geom area path cpoint fpoint prefs relation nss str nsi nsis plh tokenmap mtags) with 3 values: marshal with the real code, append random trailing bytes, unmarshal into a fresh or (kind!) an already used receiver; reference values from Uint64Edge/near the previous one, primaries and namespaces from a small pool so that primary and explicit forms both occur, int32 edges, list lengths 0/1/around 8/up to 35, ints up to the EncodeValueType/role limits (marshal panics are compared too); 1 in 8 mixed lists are outside the property's domain (an element with both halves set) and only compared with the model, 1 in 8 member lists carry a member type >= 4 (finding member-type-wide); non-trivial = a list-carrying record with >= 2 elements or a composite record; distinct = by hash of the op text",
-		Quick:    4200,
+		Rule: "case n exercises record kind kinds[n mod " + i(len(kinds)) + "] (ref refs ll lls mixed bits int tags members ints agr agl agm pll geom area path cpoint fpoint prefs relation nss str nsi nsis plh tokenmap mtags trunc) with 3 values: marshal with the real code, append random trailing bytes, unmarshal into a fresh or (kind!) an already used receiver; reference values from Uint64Edge/near the previous one, primaries and namespaces from a small pool so that primary and explicit forms both occur, int32 edges, list lengths 0/1/around 8/up to 35, ints up to the EncodeValueType/role limits (marshal panics are compared too); 1 in 8 mixed lists are outside the property's domain (an element with both halves set) and only compared with the model, 1 in 8 member lists carry a member type >= 4 (Marshal must panic); mixed!/agm! decode into a receiver holding a same-shape, a random canonical or an arbitrary old value; trunc ops decode every proper prefix of a leaf record; non-trivial = a list-carrying record with >= 2 elements or a composite record; distinct = by hash of the op text",
+		Quick:    4350,
 		Thorough: 200000,
 		Corpus:   corpus,
 		Case: func(c *hx.Ctx) {
